@@ -246,6 +246,28 @@ pub fn check_automaton(rep: &mut Report, auto: &mut Automaton, origin: &str, kin
     if let Err(m) = isomorphism(&sub, &after) {
         bad!("prune", "the pruned automaton is not the reachable part of the original: {}", m);
     }
+    // the table of the pruned automaton (a cached table from before the prune would be stale)
+    match guard(|| {
+        let alpha2 = auto.pick_alphabet();
+        let t2 = auto.compile_successors();
+        (alpha2, t2)
+    }) {
+        Ok((alpha2, t2)) => {
+            if t2.num_states() != after.n() || t2.alphabet_size() != alpha2.len() {
+                bad!("table", "after pruning the compiled table is {} x {}, the automaton is {} x {}", t2.num_states(), t2.alphabet_size(), after.n(), alpha2.len());
+            }
+            for i in 0..after.n() {
+                let st = auto.state(i);
+                for (kk, &ch) in alpha2.iter().enumerate() {
+                    rep.inc("table_cells_compared");
+                    if t2.eval(i as u32, kk as u32) != auto.next(st, ch).id() as u32 {
+                        bad!("table", "after pruning: compile_successors().eval({}, {}) = {} but next(state {}, {:x}) = {}", i, kk, t2.eval(i as u32, kk as u32), i, ch, auto.next(st, ch).id());
+                    }
+                }
+            }
+        }
+        Err(m) => bad!("table", "compile_successors() panicked after pruning: {}", m),
+    }
     let nf2 = after.f.iter().filter(|&&b| b).count();
     if auto.num_states() != after.n() || auto.num_final_states() != nf2 || auto.final_states().count() != nf2 {
         bad!("prune", "after pruning: num_states {} (observed {}), num_final_states {} (observed {})", auto.num_states(), after.n(), auto.num_final_states(), nf2);
@@ -302,6 +324,10 @@ pub fn check_program(prog: &Program, seed: u64, thorough: bool, rep: &mut Report
 }
 
 pub fn run(p: &Params, rep: &mut Report) {
+    if p.shard == 0 {
+        let n = if p.thorough { 50_000 } else { 20_000 };
+        super::deep::probe(rep, "auto-chain", n, &super::deep::expect_auto_chain(n), "prune", p.seed);
+    }
     let mut rng = p.rng(14);
     let n = p.size(8000, 80_000);
     for _ in 0..n {
